@@ -9,7 +9,7 @@ from .core import Case, hx
 
 PRE_FILES = {"pre1": ["old1"], "pre2": ["old2a", "old2b"], "inp": ["in1", "in2"], "inp2": ["second"]}
 UNWRITABLE = ["adir", "nodir/x"]
-UNREADABLE = ["missing"]
+UNREADABLE = ["missing", ""]
 NOTFOUND = ["nosuchprog"]
 STDIN_LINES = ["sin1"]
 
@@ -46,16 +46,18 @@ def gen_pipeline(r, k, profile, maxst, fresh):
         else:
             kinds.append("helper")
         m = r.below(14) if profile != "plain" else 99
-        sin.append("<" + r.choice([" inp", " inp", " missing", " inp2", " inp", "inp"]) if m == 0 else ("<<< hs%d%d" % (k, i) if m == 1 else None))
+        # input redirections: files (present / missing / the empty name), here-strings incl. the empty word and a quoted phrase
+        sin.append("<" + r.choice([" inp", " inp", " missing", " inp2", " inp", "inp", ' ""']) if m == 0 else
+                   (r.choice(["<<< hs%d%d" % (k, i)] * 4 + ['<<< ""', "<<< ''", '<<< "two words%d"' % k, "<<<hs%d%d" % (k, i)]) if m == 1 else None))
     rds = [gen_redirs(r, k, profile, fresh) for _ in range(n)]
-    isfail = lambda i: any(any(u in w for u in UNWRITABLE) for w in rds[i]) or (sin[i] is not None and "missing" in sin[i])
+    isfail = lambda i: any(any(u in w for u in UNWRITABLE) for w in rds[i]) or (sin[i] is not None and ("missing" in sin[i] or sin[i] == '< ""'))
     # at most one stage of a pipeline prints a diagnostic (two would interleave their pieces)
     seen = False
     for i in range(n):
         d = isfail(i) or kinds[i] == "notfound"
         if d and seen:
             rds[i] = [w for w in rds[i] if not any(u in w for u in UNWRITABLE)]
-            if sin[i] is not None and "missing" in sin[i]:
+            if sin[i] is not None and ("missing" in sin[i] or sin[i] == '< ""'):
                 sin[i] = None
             if kinds[i] == "notfound":
                 kinds[i] = "helper"
@@ -203,6 +205,9 @@ CORPUS = [
     ([("P", "nosuchprog <<< hs"), ("P", "fdstage q0 P S$?"), ("P", "fdstage a1x0 R >> nodir/x <<< hs"), ("P", "fdstage q1 P S$?")], "script"),
     # a here-string larger than a pipe buffer given to a command that never reads it (the shell used to die of SIGPIPE)
     ([("P", "fdstage a0x0 <<< " + "x" * 65536), ("P", "fdstage q0 P S$?")], "script"),
+    # the empty word is a word: `<<< ""` supplies one empty line, `< ""` names a file that cannot be opened
+    ([("P", 'fdstage a0x0 R <<< ""'), ("P", "fdstage q0 P S$?"), ("P", "fdstage a1x0 Wup | fdstage a1x1 R <<< ''"), ("P", "fdstage q1 P S$?"),
+      ("P", 'fdstage a2x0 R < ""'), ("P", "fdstage q2 P S$?")], "script"),
 ]
 
 
